@@ -6,6 +6,7 @@ import (
 	"math"
 	"strconv"
 	"strings"
+	"sync/atomic"
 	"time"
 
 	"github.com/d5/tengo/v2/parser"
@@ -1330,7 +1331,19 @@ func (o *ObjectPtr) Equals(x Object) bool {
 type String struct {
 	ObjectImpl
 	Value   string
-	runeStr []rune
+	runeStr atomic.Value // []rune, set lazily by runes()
+}
+
+// runes returns the string as a rune slice. The conversion is cached; the
+// cache is published atomically because string constants are shared by the
+// clones of a compiled script, which may index them concurrently.
+func (o *String) runes() []rune {
+	if r, ok := o.runeStr.Load().([]rune); ok {
+		return r
+	}
+	r := []rune(o.Value)
+	o.runeStr.Store(r)
+	return r
 }
 
 // TypeName returns the name of the type.
@@ -1424,25 +1437,21 @@ func (o *String) IndexGet(index Object) (res Object, err error) {
 		return
 	}
 	idxVal := int(intIdx.Value)
-	if o.runeStr == nil {
-		o.runeStr = []rune(o.Value)
-	}
-	if idxVal < 0 || idxVal >= len(o.runeStr) {
+	runeStr := o.runes()
+	if idxVal < 0 || idxVal >= len(runeStr) {
 		res = UndefinedValue
 		return
 	}
-	res = &Char{Value: o.runeStr[idxVal]}
+	res = &Char{Value: runeStr[idxVal]}
 	return
 }
 
 // Iterate creates a string iterator.
 func (o *String) Iterate() Iterator {
-	if o.runeStr == nil {
-		o.runeStr = []rune(o.Value)
-	}
+	runeStr := o.runes()
 	return &StringIterator{
-		v: o.runeStr,
-		l: len(o.runeStr),
+		v: runeStr,
+		l: len(runeStr),
 	}
 }
 
